@@ -8,7 +8,8 @@ cd /verif
 for id in "$@"; do
   S=/tmp/seed$R-$id-demo; D=seeded/r$R-$id
   mkdir -p $D
-  for f in patch.diff demo_test.go meta.json; do [ -f $S/$f ] && cp $S/$f $D/; done
+  for f in patch.diff meta.json; do [ -f $S/$f ] && cp $S/$f $D/; done
+  cp $S/*_test.go $D/ 2>/dev/null   # the demonstration and any helper file it needs
   [ -f $D/patch.diff ] || { echo "r$R-$id: no patch"; continue; }
   src=$(./tools_seed_src.sh r$R-$id) || { echo "r$R-$id: patch does not apply"; continue; }
   chk=${CHECK:-$id}
